@@ -74,14 +74,25 @@ class GarbageCollector:
         """
         stats = {"data_files": 0, "manifest_files": 0, "manifest_lists": 0}
 
-        # 1. Refresh metadata to get latest view
+        # 1. Load in-flight protection markers (and sweep abandoned ones) BEFORE
+        # reading the table metadata. A committing transaction removes its
+        # markers only after the commit point, so with this order every file of
+        # a concurrent transaction is covered by one of the two reads: either its
+        # marker is still there now, or its commit is already visible to the
+        # metadata read below. Reading the metadata first left a window - commit
+        # and marker cleanup landing between the two reads - in which a data file
+        # older than the grace period was deleted although the new current
+        # snapshot references it.
+        protected_files = self._load_inflight_protection(inflight_timeout_ms)
+
+        # 2. Refresh metadata to get latest view
         metadata = self.metadata_manager.refresh()
         if not metadata:
             return stats
 
         logger.info(f"Starting garbage collection for {self.table_path}")
 
-        # 2. Identify all reachable files. ANY failure here aborts the whole
+        # 3. Identify all reachable files. ANY failure here aborts the whole
         # collection: deleting based on incomplete reachability deletes live data.
         reachable_data_files: Set[str] = set()
         reachable_manifests: Set[str] = set()
@@ -130,8 +141,6 @@ class GarbageCollector:
         logger.info(f"Found reachable: {len(reachable_manifest_lists)} manifest lists, "
                     f"{len(reachable_manifests)} manifests, {len(reachable_data_files)} data files")
 
-        # 3. Load in-flight protection markers (and sweep abandoned ones)
-        protected_files = self._load_inflight_protection(inflight_timeout_ms)
         if protected_files:
             logger.info(f"Protecting {len(protected_files)} in-flight files from GC")
 
